@@ -28,6 +28,9 @@ def run(rep, prog, tier):
     r7(rep, prog)
     r8(rep, prog)
     r9(rep, prog)
+    from ..report import Retag
+    from .c05 import flock_files_stay
+    flock_files_stay(Retag(rep, "C18-R10"), prog, "C18-R10")
 
 
 def r7(rep, prog):
